@@ -144,30 +144,30 @@ pub fn parse_bic(input: &str) -> Result<String, ParseError> {
     }
 
     // First 4 chars: Bank code (letters)
-    if !input[0..4].chars().all(|c| c.is_alphabetic()) {
+    if !input[0..4].chars().all(|c| c.is_ascii_uppercase()) {
         return Err(ParseError::InvalidFormat {
-            message: "BIC bank code (first 4 chars) must be letters".to_string(),
+            message: "BIC bank code (first 4 chars) must be upper-case letters".to_string(),
         });
     }
 
     // Next 2 chars: Country code (letters)
-    if !input[4..6].chars().all(|c| c.is_alphabetic()) {
+    if !input[4..6].chars().all(|c| c.is_ascii_uppercase()) {
         return Err(ParseError::InvalidFormat {
-            message: "BIC country code (chars 5-6) must be letters".to_string(),
+            message: "BIC country code (chars 5-6) must be upper-case letters".to_string(),
         });
     }
 
     // Next 2 chars: Location code (alphanumeric)
-    if !input[6..8].chars().all(|c| c.is_alphanumeric()) {
+    if !input[6..8].chars().all(|c| c.is_ascii_uppercase() || c.is_ascii_digit()) {
         return Err(ParseError::InvalidFormat {
-            message: "BIC location code (chars 7-8) must be alphanumeric".to_string(),
+            message: "BIC location code (chars 7-8) must be upper-case letters or digits".to_string(),
         });
     }
 
     // Optional 3 chars: Branch code (alphanumeric)
-    if input.len() == 11 && !input[8..11].chars().all(|c| c.is_alphanumeric()) {
+    if input.len() == 11 && !input[8..11].chars().all(|c| c.is_ascii_uppercase() || c.is_ascii_digit()) {
         return Err(ParseError::InvalidFormat {
-            message: "BIC branch code (chars 9-11) must be alphanumeric".to_string(),
+            message: "BIC branch code (chars 9-11) must be upper-case letters or digits".to_string(),
         });
     }
 
